@@ -366,3 +366,65 @@ class DisBench(object):
         except BaseException as ex:  # noqa: B902
             return 'other:%s' % type(ex).__name__
         return '%d %s' % (n, tohex(t))
+
+
+# ---------------------------------------------------------------------------------------
+# tie 1 for the assembler: regenerate lean/Py65/Gen/AsmGen.lean from $PY65_REPO/py65/assembler.py
+# ---------------------------------------------------------------------------------------
+
+ASM_GEN_MODULES = ['Py65.Proofs.AsmGenEq']
+ASM_GEN_THEOREMS = [
+    'Py65.Proofs.AsmGenEq.Statement_eq', 'Py65.Proofs.AsmGenEq.Addressing_eq',
+    'Py65.Proofs.AsmGenEq.init_addressing_eq', 'Py65.Proofs.AsmGenEq.normalize_and_split_eq',
+    'Py65.Proofs.AsmGenEq.assemble_eq', 'Py65.Proofs.AsmGenEq.assembleG_eq', 'Py65.Proofs.AsmGenEq.splitG_eq',
+]
+ASM_GEN_TRUSTED = [
+    'TRANSLATED on every run (harness/py2lean_asm.py, ast-based, refuses anything outside its subset): '
+    'lean/Py65/Gen/AsmGen.lean = the class attributes Statement (by exact pattern text) and Addressing (data, in '
+    'order), the template list built by __init__, and normalize_and_split / assemble statement by statement '
+    '(control flow, order, operators, constants, exception handlers).  Py65/Proofs/AsmGenEq.lean proves the generated '
+    'functions EQUAL to the hand model Py65.Model.Asm for all arguments (assemble_eq, normalize_and_split_eq, '
+    'init_addressing_eq, Addressing_eq, Statement_eq); Props/C07g.lean / C08ga.lean restate the property theorems for '
+    'the generated functions.  A source change outside the subset is a translator refusal; inside the subset it '
+    'changes AsmGen.lean and the equalities no longer check -- both are reported as a broken tie',
+    'still MODELLED, not translated (library behaviour, named helpers of lean/Py65/Model/AsmRt.lean mapped to the hand '
+    "model): CPython `re` for the Statement pattern (deterministic scanner, keyed by the exact pattern text) and for "
+    'the template patterns (the construction "^"+re.escape(t)+"$" / replace 00 / replace FF, recognised '
+    'symbolically), str.split()/split(" ", 1)/join/strip/upper/startswith, s[i], s[i:], ord, len, %-formatting with '
+    '"%0Nx", int(s, 16), list.index, 2-unpacking, AddressParser.number (hand model, C15), the embedding\'s exception '
+    'monad (raise / try-except with one handler / continue / return); py2lean_asm.py itself (CPython evaluation order '
+    'of the accepted expressions is followed by A-normalisation, not verified).  These remain tied by the sampled '
+    'correspondence of this check',
+]
+
+
+def pre_build_asm(ctx):
+    """Run the assembler translator (inside the build lock).  Returns its report, or None after a refusal
+    (recorded in ctx.broken; lean/Py65/Gen/AsmGen.lean then keeps its previous content)."""
+    import json
+    import subprocess
+    from common import REPO
+    rep = os.path.join(ctx.work, 'py2lean_asm.json')
+    env = dict(os.environ, PY65_REPO=REPO)
+    p = subprocess.run([sys.executable, os.path.join(HERE, 'py2lean_asm.py'), '--out', os.path.join(LEAN, 'Py65', 'Gen'),
+                        '--report', rep], stdout=subprocess.PIPE, stderr=subprocess.STDOUT, env=env, timeout=120)
+    out = p.stdout.decode('utf-8', 'replace')
+    r = {}
+    try:
+        r = json.load(open(rep))
+    except Exception:
+        pass
+    if p.returncode != 0 or not r.get('ok'):
+        ctx.broken.append(dict(kind='translator', what='py2lean_asm refused py65/assembler.py',
+                               detail=(r.get('error') or out)[-1500:], where=r.get('where'),
+                               function=r.get('function')))
+        return None
+    info = dict(functions=r.get('functions'), rewritten=r.get('written'), source_sha256=r.get('source_sha256'),
+                generated_sha256=r.get('generated_sha256'))
+    if isinstance(ctx.stats.get('translator'), dict):
+        ctx.stats['translator']['assembler'] = info
+    else:
+        ctx.stats['translator'] = dict(assembler=info)
+    if r.get('written'):
+        ctx.note('py2lean_asm: lean/Py65/Gen/AsmGen.lean changed (the assembler source differs from the pinned one)')
+    return r
